@@ -34,6 +34,8 @@ type Ev struct {
 	Ptr  any
 	Src  string // which schedule (RecSchedule.Name)
 	Pool int
+	// CallSeq (next, left): the sequence stamp when the call started (Seq is taken when it returned)
+	CallSeq uint64
 	// CtxDone (shoot-in, shoot-out): the context the gun was bound with (GunDeps.Ctx) was already done
 	CtxDone bool
 }
@@ -310,14 +312,16 @@ type RecSchedule struct {
 }
 
 func (s *RecSchedule) Next() (time.Time, bool) {
+	c := simrt.Seq()
 	t, ok := s.Schedule.Next()
-	s.Log.Add(Ev{Kind: "next", Tok: t.Sub(s.Log.T0), OK: ok, Src: s.Name})
+	s.Log.Add(Ev{Kind: "next", Tok: t.Sub(s.Log.T0), OK: ok, Src: s.Name, CallSeq: c})
 	return t, ok
 }
 
 func (s *RecSchedule) Left() int {
+	c := simrt.Seq()
 	n := s.Schedule.Left()
-	s.Log.Add(Ev{Kind: "left", N: n, Src: s.Name})
+	s.Log.Add(Ev{Kind: "left", N: n, Src: s.Name, CallSeq: c})
 	return n
 }
 
